@@ -62,6 +62,7 @@ pub fn run(cx: &mut Ctx) {
     crate::rules::float_rules::float_renderer(cx, "C18.G1");
     crate::rules::float_rules::float_sign_rule(cx, "C18.S1", "format/src/format.rs", "FormatSpec", "format_float");
     unconsumed_text(cx, &src);
+    grouped_padding(cx, &src);
 }
 
 /// A3: grouped digits are extended to the width only under zero padding.
@@ -560,5 +561,116 @@ fn unconsumed_text(cx: &mut Ctx, src: &sm::Src) {
         } else {
             cx.fail(rule, &format!("{}/{}", rule, name), &src.rel, &format!("{} returns {:?} for an input it does not recognise: the rest must be the parameter `{}` itself, otherwise characters are swallowed", name, bad, param));
         }
+    }
+}
+
+
+/// A4: zero padding under a grouping option.
+fn grouped_padding(cx: &mut Ctx, src: &sm::Src) {
+    use crate::eval::{Machine, V};
+    let rule = "C18.A4";
+    cx.rule(rule, "zero padding with a thousands separator: FormatSpec::separate_integer, interpreted for every digit string of 1..=8 digits, both group sizes (3 and 4) and every requested field width 0..=14, returns the digits zero-extended on the left to the smallest number of digits whose grouped form fills the width, grouped from the right, never starting with a separator (`format(1234, '08,')` = `0,001,234`); insert_separator is interpreted along with it");
+    cx.floor(rule, 200);
+    let (Some(sep_f), Some(ins_f)) = (src.method("FormatSpec", "separate_integer"), src.method("FormatSpec", "insert_separator")) else { return cx.anchor_missing(rule, "separate_integer / insert_separator") };
+    let params = |f: &syn::ImplItemFn| -> Vec<String> {
+        f.sig
+            .inputs
+            .iter()
+            .filter_map(|a| if let syn::FnArg::Typed(pt) = a { Some(sm::tsc(&pt.pat).trim_start_matches("mut").to_string()) } else { None })
+            .collect()
+    };
+    let (sp, ip) = (params(sep_f), params(ins_f));
+    if sp.len() != 4 || ip.len() != 4 {
+        return cx.fail(rule, &format!("{}/shape", rule), &src.loc(sep_f), "separate_integer / insert_separator do not take (digits, interval, separator, count)");
+    }
+    // reference: group `digits` from the right every `inter` digits
+    let group = |digits: &str, inter: usize| -> String {
+        let n = digits.len();
+        let mut out = String::new();
+        for (i, c) in digits.chars().enumerate() {
+            if i > 0 && (n - i) % inter == 0 {
+                out.push(',');
+            }
+            out.push(c);
+        }
+        out
+    };
+    // insert_separator(s, inter, sep, cnt): interpreted through its own body, with String::insert modelled
+    fn run_insert(ins_f: &syn::ImplItemFn, ip: &[String], s: &str, inter: i128, cnt: i128) -> Result<String, String> {
+        let cur = std::cell::RefCell::new(s.to_string());
+        let methods = |recv: &V, m: &str, args: &[V]| -> Option<V> {
+            match (recv, m, args) {
+                (V::Str(_), "insert", [V::Int(at), V::Char(c)]) => {
+                    let mut b = cur.borrow_mut();
+                    if *at < 0 || *at as usize > b.len() {
+                        return None;
+                    }
+                    b.insert(*at as usize, char::from_u32(*c)?);
+                    Some(V::Unit)
+                }
+                _ => None,
+            }
+        };
+        let mut mach = Machine::new(&methods);
+        mach.set(&ip[0], V::Str(s.to_string()));
+        mach.set(&ip[1], V::Int(inter));
+        mach.set(&ip[2], V::Char(',' as u32));
+        mach.set(&ip[3], V::Int(cnt));
+        mach.eval_fn_body(&ins_f.block)?;
+        let out = cur.borrow().clone();
+        Ok(out)
+    }
+    let mut n = 0;
+    let mut bad: Vec<String> = vec![];
+    'outer: for len in 1..=8usize {
+        let digits: String = "12345678"[..len].to_string();
+        for inter in [3usize, 4] {
+            for width in 0..=14usize {
+                let failure = std::cell::RefCell::new(None::<String>);
+                let methods = |recv: &V, m: &str, args: &[V]| -> Option<V> {
+                    match (recv, m, args) {
+                        (V::Unit, name, [V::Str(s), V::Int(i), V::Char(_), V::Int(c)]) if name.ends_with("insert_separator") => match run_insert(ins_f, &ip, s, *i, *c) {
+                            Ok(r) => Some(V::Str(r)),
+                            Err(e) => {
+                                *failure.borrow_mut() = Some(e);
+                                None
+                            }
+                        },
+                        _ => None,
+                    }
+                };
+                let mut mach = Machine::new(&methods);
+                mach.set(&sp[0], V::Str(digits.clone()));
+                mach.set(&sp[1], V::Int(inter as i128));
+                mach.set(&sp[2], V::Char(',' as u32));
+                mach.set(&sp[3], V::Int(width as i128));
+                let got = mach.eval_fn_body(&sep_f.block);
+                // reference
+                let mut d = len;
+                while d + (d - 1) / inter < width {
+                    d += 1;
+                }
+                let want = group(&format!("{}{}", "0".repeat(d - len), digits), inter);
+                n += 1;
+                match got {
+                    Ok(V::Str(g)) if g == want => {}
+                    Ok(V::Str(g)) => bad.push(format!("digits {} grouped by {} in a field of {}: `{}`, expected `{}`", digits, inter, width, g, want)),
+                    Ok(o) => bad.push(format!("result {:?}", o)),
+                    Err(e) => {
+                        bad.push(format!("not interpretable ({}{})", e, failure.borrow().clone().map(|x| format!("; {}", x)).unwrap_or_default()));
+                        break 'outer;
+                    }
+                }
+            }
+        }
+    }
+    if bad.is_empty() {
+        for _ in 0..n {
+            cx.ok_trivial(rule);
+        }
+        cx.ok(rule, &format!("separate_integer agrees with the reference on {} (digits, group size, width) combinations", n));
+    } else {
+        bad.truncate(3);
+        cx.fail(rule, &format!("{}/separate_integer", rule), &src.loc(sep_f), &format!("zero padding under grouping is wrong: {}", bad.join("; ")));
     }
 }
